@@ -55,13 +55,13 @@ var properties = []Property{
 		NotDecided:  "observational equivalence of optimized and unoptimized programs in general.",
 		Assumptions: commonAssumptions},
 	{ID: "C13", Title: "invalid scripts are rejected", Level: "other",
-		Rules:       []string{"R-NILERR", "R-ERRPROP", "R-BLOCKOPEN", "R-TOPSTOP", "R-TERNGUARD", "R-LOCALGUARD", "R-EOFSENTINEL", "R-NAMETOKEN", "R-FUNCFLAG", "R-SEENTOKEN", "R-VISITALL", "R-ONEDEFAULT", "R-TEXTOFNODE", "R-CHILDCOMPILED", "R-TOKENSTATE", "R-USEBEFORECHECK"},
-		Explanation: "SSA dataflow over the parser and compiler: a parse function returns nil only after an error was recorded (must-dataflow with callee summaries, through the registered parselet tables), Parse turns a non-empty error list into an error, every error-valued call has its error looked at and never replaced by nil, blocks are parsed only after '{' was demanded, the top-level loop stops only at end of input, nested ternaries and `local` outside functions are rejected. Names are only taken from tokens tested to be identifiers, the in-function flag is cleared on every exit, and the parser never steps over a token it has not looked at (identified beforehand as one kind on every path, or examined afterwards). Compiler loops over a node's children are left early only with an error, a switch cannot end up with two default arms, the printed form of a node stands for it only where the node is an identifier, and a ternary's condition is examined for a ternary. A typestate analysis of the current and next token (may it be the end of input, may it be illegal, has an error been recorded) over all parser methods, with summaries through calls and the parselet tables, shows that no advance steps off a token that may be either without an error on record.",
+		Rules:       []string{"R-NILERR", "R-ERRPROP", "R-BLOCKOPEN", "R-TOPSTOP", "R-TERNGUARD", "R-LOCALGUARD", "R-EOFSENTINEL", "R-NAMETOKEN", "R-FUNCFLAG", "R-SEENTOKEN", "R-VISITALL", "R-ONEDEFAULT", "R-TEXTOFNODE", "R-CHILDCOMPILED", "R-TOKENSTATE", "R-USEBEFORECHECK", "R-WHITESPACE"},
+		Explanation: "SSA dataflow over the parser and compiler: a parse function returns nil only after an error was recorded (must-dataflow with callee summaries, through the registered parselet tables), Parse turns a non-empty error list into an error, every error-valued call has its error looked at and never replaced by nil, blocks are parsed only after '{' was demanded, the top-level loop stops only at end of input, nested ternaries and `local` outside functions are rejected. Names are only taken from tokens tested to be identifiers, the in-function flag is cleared on every exit, and the parser never steps over a token it has not looked at (identified beforehand as one kind on every path, or examined afterwards). Compiler loops over a node's children are left early only with an error, a switch cannot end up with two default arms, the printed form of a node stands for it only where the node is an identifier, and a ternary's condition is examined for a ternary. A typestate analysis of the current and next token (may it be the end of input, may it be illegal, has an error been recorded) over all parser methods, with summaries through calls and the parselet tables, shows that no advance steps off a token that may be either without an error on record. The white-space skipper skips exactly space, tab, LF and CR (evaluated per code point), so any other stray character is reported.",
 		NotDecided:  "that each individual syntax check is the right check (needs a grammar as oracle).",
 		Assumptions: commonAssumptions},
 	{ID: "C04", Title: "host object fields", Level: "other",
-		Rules:       []string{"R-NONNIL", "R-RUNRESET", "R-LOOKUPORDER", "R-KINDTABLE", "R-COMMAOK", "R-PUREARGS", "R-REFLECTKIND", "R-ONPATHONLY", "R-STATECENSUS", "R-ALLMEMBERS"},
-		Explanation: "Conversion of host fields is total and never yields a nil object (SSA nil-source analysis with function summaries over every Object-returning function and every push/store sink), every run and nested call starts from an empty field cache, and names resolve as variable, then field, then null (dominance in the resolver). The reflect.Kind → object table is the documented one, comma-ok results are used only where ok was tested, and no built-in reorders or writes an array it was given (a field's array is shared with the field cache). Members of host containers are taken out of their interface before the kind switch sees them, and the set that cuts off self-containing containers holds the current path only (a sibling met twice is not a cycle). No state of the machine outlives a run unclassified, so a run sees the object it was given. Every loop over the members of a reflected value stores each member: it is counted from the first to the last and skips only on the member's own account, never on the machine's state.",
+		Rules:       []string{"R-NONNIL", "R-RUNRESET", "R-LOOKUPORDER", "R-KINDTABLE", "R-COMMAOK", "R-PUREARGS", "R-REFLECTKIND", "R-ONPATHONLY", "R-STATECENSUS", "R-ALLMEMBERS", "R-KINDREACH", "R-IDENTSTART"},
+		Explanation: "Conversion of host fields is total and never yields a nil object (SSA nil-source analysis with function summaries over every Object-returning function and every push/store sink), every run and nested call starts from an empty field cache, and names resolve as variable, then field, then null (dominance in the resolver). The reflect.Kind → object table is the documented one, comma-ok results are used only where ok was tested, and no built-in reorders or writes an array it was given (a field's array is shared with the field cache). Members of host containers are taken out of their interface before the kind switch sees them, and the set that cuts off self-containing containers holds the current path only (a sibling met twice is not a cycle). No state of the machine outlives a run unclassified, so a run sees the object it was given. Every loop over the members of a reflected value stores each member: it is counted from the first to the last and skips only on the member's own account, never on the machine's state. For every kind of the documented table no path through the kind switch ends in a freshly made null (a nil slice is the empty array). Every character that may continue a name may begin one (0-9 aside), so a key such as `_id` can be named.",
 		NotDecided:  "lossless conversion per kind, order and length of arrays, nested maps: values produced by reflection at run time.",
 		Assumptions: commonAssumptions},
 	{ID: "C05", Title: "one notion of truth", Level: "other",
@@ -116,12 +116,12 @@ var properties = []Property{
 		NotDecided:  "the '.' rewrite of field access, postfix ++/-- being separate statements, what the compiler does with the tree.",
 		Assumptions: commonAssumptions},
 	{ID: "C14", Title: "literals and layout", Level: "other",
-		Rules:       []string{"R-LEXPROGRESS", "R-EOFSENTINEL", "R-ESCAPES", "R-CONSTDEDUP", "R-DIVCONTEXT", "R-COMMENTCTX", "R-NUMBASE", "R-TOKENPROGRESS", "R-LEXINPUT", "R-CUTSET", "R-BYTERUNE", "R-POOLOWNER"},
-		Explanation: "Narrow claim. Tokenisation terminates for every input: the advance function moves forward unconditionally, every lexer loop advances on every cycle and has an exit taken at the end-of-input sentinel (loop conditions are evaluated with the sentinel substituted, predicates included), and the lexer does not recurse. End of input is decided by position, not by a character value. The string reader's escape table is the language's. Every return of NextToken has consumed a character (readers are entered under their own loop predicate); `//` starts a comment independent of the previous token; `/` divides exactly after an operand-ending token; integer and decimal text is read in base 10 with 64 bits; the constant pool keeps literals of different kinds apart. The lexer's buffer is the script text unmodified; Trim calls have constant cutsets. No text of a script is rebuilt byte by byte in the lexer, parser or compiler. A constant, once in the pool, is never rewritten: the literal a script spells is the value every use of it loads.",
+		Rules:       []string{"R-LEXPROGRESS", "R-EOFSENTINEL", "R-ESCAPES", "R-CONSTDEDUP", "R-DIVCONTEXT", "R-COMMENTCTX", "R-NUMBASE", "R-TOKENPROGRESS", "R-LEXINPUT", "R-CUTSET", "R-BYTERUNE", "R-POOLOWNER", "R-WHITESPACE"},
+		Explanation: "Narrow claim. Tokenisation terminates for every input: the advance function moves forward unconditionally, every lexer loop advances on every cycle and has an exit taken at the end-of-input sentinel (loop conditions are evaluated with the sentinel substituted, predicates included), and the lexer does not recurse. End of input is decided by position, not by a character value. The string reader's escape table is the language's. Every return of NextToken has consumed a character (readers are entered under their own loop predicate); `//` starts a comment independent of the previous token; `/` divides exactly after an operand-ending token; integer and decimal text is read in base 10 with 64 bits; the constant pool keeps literals of different kinds apart. The lexer's buffer is the script text unmodified; Trim calls have constant cutsets. No text of a script is rebuilt byte by byte in the lexer, parser or compiler. A constant, once in the pool, is never rewritten: the literal a script spells is the value every use of it loads. The white-space skipper skips exactly space, tab, LF and CR.",
 		NotDecided:  "what regexp literals denote character by character, and that layout and comments never change the token sequence in general: character-level value semantics.",
 		Assumptions: commonAssumptions},
 	{ID: "C16", Title: "containers", Level: "other",
-		Rules:       []string{"R-SCRIPTINDEX", "R-HASHKEY", "R-MAPORDER", "R-NOMUT", "R-ITERNEXT", "R-RANGE", "R-POPORDER", "R-MEMBERSHIP", "R-LENKIND", "R-PUREARGS", "R-CONSTDEDUP"},
+		Rules:       []string{"R-SCRIPTINDEX", "R-HASHKEY", "R-MAPORDER", "R-NOMUT", "R-ITERNEXT", "R-RANGE", "R-POPORDER", "R-MEMBERSHIP", "R-LENKIND", "R-PUREARGS", "R-CONSTDEDUP", "R-KINDREACH"},
 		Explanation: "Every slice index computed from a script value is proven within bounds from the dominating comparisons (difference constraints over canonical len terms); every HashKey() keeps the type and the value of the key; hash entries are iterated in a total order (sorted with a comparator that identifies the entry); iteration works on a private cursor so every entry is visited exactly once even in nested loops. Ranges are built start to end inclusive, literals pop their elements in reverse push order, membership compares type and printed form over every element, len counts runes/elements. The hash key of a value loses nothing of the value by construction (no float cut to an integer, no narrowing).",
 		NotDecided:  "element order from the stack, len, membership: values.",
 		Assumptions: commonAssumptions},
